@@ -1,6 +1,6 @@
 \* C07 negative: query cache keyed on a prefix (expected: violation)
 CONSTANTS
-  Requests <- RequestsConc
+  Requests <- RequestsNeg
   ResetFields <- AllSix
   ResetEarly = FALSE
   CacheKey = "prefix"
